@@ -288,3 +288,35 @@ Example C13_get_json_code_nonvacuous :
   fn_getJson gstate0 [Data lbrace; Zero; DataEOF dq] = Ret ((s "{" ++ [dq], Some EOther), []) /\
   fn_getJson gstate0 [Data rbrace; Data lbrace] = Ret (([], Some EOther), [Data lbrace]).
 Proof. repeat split; vm_compute; reflexivity. Qed.
+
+(* ---- NewMapJsonReader / NewMapJsonReaderRaw (json.go), translated from the current sources and instantiated with the
+   translated getJson; NewMapJson is an arbitrary function, as in the model (GenProofs/PureG7.v).  [entries_of]: the
+   translation carries a Go Map as its entry list, so a nil Map and an empty Map are both [] there (the correspondence
+   run tells them apart). *)
+From Mxj Require Import GenProofs.PureG7.
+
+Theorem C13_new_map_json_reader_code_is_model : forall nmj st sc,
+  fn_NewMapJsonReader (run_getJson st) nmj st sc
+  = match new_map_json_reader (nmj_of nmj) sc with
+    | Some (Ok v, sc') => Ret (Ok (entries_of v), sc')
+    | Some (Err e, sc') => Ret (Err e, sc')
+    | Some (Panic, _) | None => Crash
+    end.
+Proof. exact new_map_json_reader_code_is_model. Qed.
+Print Assumptions C13_new_map_json_reader_code_is_model.
+
+Theorem C13_new_map_json_reader_raw_code_is_model : forall nmj st sc,
+  fn_NewMapJsonReaderRaw (run_getJson st) nmj st sc
+  = match new_map_json_reader_raw (nmj_of nmj) sc with
+    | Some (Ok v, b, sc') => Ret ((entries_of v, b, None), sc')
+    | Some (Err e, b, sc') => Ret (([], b, Some e), sc')
+    | Some (Panic, _, _) | None => Crash
+    end.
+Proof. exact new_map_json_reader_raw_code_is_model. Qed.
+Print Assumptions C13_new_map_json_reader_raw_code_is_model.
+
+Example C13_reader_code_nonvacuous :
+  fn_NewMapJsonReaderRaw (run_getJson gstate0) (fun b => Ok [(s "n", VFlt (itoa (length b)))]) gstate0
+    [Zero; Data lbrace; Data rbrace; Zero; DataEOF lbrace] =
+    Ret (([(s "n", VFlt (s "2"))], s "{}", None), [Zero; DataEOF lbrace]).
+Proof. vm_compute. reflexivity. Qed.
